@@ -14,7 +14,9 @@ RULE = ("ordered pairs of automata: a random epsilon-NFA/NFA/DFA (0-4 states, 1-
         "_get_partition is compared, class order and member order included, with the step-faithful Hopcroft model "
         "(proved to yield the Nerode partition) and with the Nerode oracle. Non-trivial: first automaton has >=2 states, >=2 transitions, a "
         "start and a final state.")
-THEOREMS = ["Pfl.ENFA.sameRight_iff",
+THEOREMS = ["Pfl.ENFA.isEquivalent_hopcroft_exact",
+            "Pfl.ENFA.minimize_enfa",
+            "Pfl.ENFA.sameRight_iff",
             "Pfl.ENFA.nerodeGroups_spec",
             "Pfl.ENFA.minimizeOf_lang",
             "Pfl.ENFA.minimizeOf_shape",
